@@ -10,7 +10,7 @@ if [ "$demo" != "-" ]; then
 fi
 (cd $d && patch -p1 -s < $patch) || { echo "PATCH FAILED"; rm -rf $d; exit 2; }
 if [ "$demo" != "-" ]; then
-  (cd $d && /venv/bin/python $demo 2>&1 | tail -2); echo "demo on changed: exit ${PIPESTATUS[0]}"
+  out=$(cd $d && /venv/bin/python $demo 2>&1); rc=$?; echo "$out" | tail -2; echo "demo on changed: exit $rc"
 fi
 echo -n "pinned tests with change: "; /verif/tools/baseline.sh $d | head -3 | tr '\n' ' '; echo
 for p in "$@"; do
